@@ -233,7 +233,7 @@ struct pnc_scan {
     uint64_t decl_single, decl_alloc, decl_read;
 };
 static uint64_t pnc_skip_ndims_t, pnc_skip_att_t; static int pnc_skip_neg64, pnc_skip_on, pnc_excuse_on;
-#define PNC_SAT ((uint64_t)1 << 62)
+#define PNC_SAT ((uint64_t)INT64_MAX)
 static void pnc_decl(struct pnc_scan *sc, uint64_t single, uint64_t total, uint64_t rd)
 {
     if (single > sc->decl_single) sc->decl_single = single;
